@@ -27,9 +27,10 @@ RULE = ("one evaluation = one Hy source compiled in k fresh processes (PYTHONHAS
         "through every name set of the compiler: nonlocal/global declarations of 2-6 names resolved at mixed levels "
         "(module, outer function, let, middle function), comprehensions leaking several setv/setx names in module, "
         "function and let scope, let with many bindings, defclass, match captures (or-patterns, mapping rest), "
-        "import/require lists, set/dict literals, keyword-only parameters, local macros; plus template programs with "
+        "import/require lists, whole-module / prefixed / partial requires of fixture macro modules (2-6 exported macros, "
+        "written under VERIF_SCRATCH) inside defn/fn/defclass/method/comprehension/let bodies, set/dict literals, keyword-only parameters, local macros; plus template programs with "
         "many temporaries, the gen_prog corpus and the C04/C06/C07/C08 sources when importable. Non-trivial = the "
-        "compiled AST has a global/nonlocal declaration, a leak assignment or an or-pattern with >= 2 names; "
+        "compiled AST has a global/nonlocal declaration, a leak assignment, an or-pattern or a local-macro transfer with >= 2 names; "
         "distinct by source text.")
 FLOOR = {"quick": 500, "thorough": 500}
 BUDGET = {"quick": 22, "thorough": 480}
@@ -218,7 +219,63 @@ def g_macro(rng):
     return "\n".join(forms[:rng.randint(1, 3)])
 
 
-GENS = [("decl", g_decl, 5), ("leak", g_leak, 4), ("let", g_let, 3), ("class", g_class, 2), ("match", g_match, 2),
+# fixture macro modules (written under VERIF_SCRATCH, on the children's PYTHONPATH)
+FIXTURES = {
+    "hvmac_a": "(defmacro alpha [] 1)\n(defmacro bravo [] 2)\n(defmacro charlie [] 3)\n(defmacro delta [] 4)\n"
+               "(defmacro echo [] 5)\n(defmacro foxtrot [] 6)\n(defmacro _private [] 8)\n",
+    "hvmac_b": "(defmacro one [] 1)\n(defmacro two [] 2)\n(defmacro three [] 3)\n(defmacro four [] 4)\n"
+               "(defmacro hidden [] 5)\n(setv _hy_export_macros [\"four\" \"three\" \"two\" \"one\"])\n",
+    "hvmac_c": "(defmacro my-first [x] x)\n(defmacro second? [x] x)\n",
+    "hvmac_d": "(defmacro m1 [] 1)\n(defmacro m2 [] 2)\n(defmacro m3 [] 3)\n(defmacro m4 [] 4)\n(defmacro m5 [] 5)\n"
+               "(export :macros [m5 m3 m1])\n",
+}
+FIXMACS = {"hvmac_a": ["alpha", "bravo", "charlie", "delta", "echo", "foxtrot"], "hvmac_b": ["one", "two", "three", "four"],
+           "hvmac_c": ["my-first", "second?"], "hvmac_d": ["m1", "m3", "m5"]}
+
+
+def g_require(rng):
+    """whole-module and partial requires inside defn / fn / defclass / comprehension / let bodies"""
+    ns = names(rng, 4)
+    out = []
+    if rng.random() < 0.4:
+        mod = rng.choice(list(FIXTURES))
+        out.append(rng.choice([f"(require {mod} *)", f"(require {mod})", f"(require {mod} :as {ns[3]})"]))
+    for _ in range(rng.randint(1, 3)):
+        mod = rng.choice(list(FIXTURES))
+        macs = FIXMACS[mod]
+        shape = rng.choice(["star", "star", "plain", "as", "list", "star-macros"])
+        arg = "" if mod != "hvmac_c" else " 7"
+        if shape == "star":
+            req, use = f"(require {mod} *)", " ".join(f"({m}{arg})" for m in macs)
+        elif shape == "star-macros":
+            req, use = f"(require {mod} :macros *)", " ".join(f"({m}{arg})" for m in macs[:2])
+        elif shape == "plain":
+            req, use = f"(require {mod})", " ".join(f"({mod}.{m}{arg})" for m in macs)
+        elif shape == "as":
+            req, use = f"(require {mod} :as {ns[0]})", " ".join(f"({ns[0]}.{m}{arg})" for m in macs)
+        else:
+            pick = rng.sample(macs, min(len(macs), rng.randint(2, 3)))
+            req = f"(require {mod} [{pick[0]} {pick[1]} :as {ns[1]}])"
+            use = f"({pick[0]}{arg}) ({ns[1]}{arg})"
+        where = rng.choice(["defn", "defn", "fn", "class", "comp", "let-in-fn", "nested-fn", "method"])
+        if where == "defn":
+            out.append(f"(defn {ns[2]} [] {req} [{use}])")
+        elif where == "fn":
+            out.append(f"(setv {ns[2]} (fn [] {req} [{use}]))")
+        elif where == "class":
+            out.append(f"(defclass K{rng.randint(0, 9)} [] {req} (setv v [{use}]))")
+        elif where == "comp":
+            out.append(f"(setv {ns[2]} (lfor q (range 2) (do {req} [{use}])))")
+        elif where == "let-in-fn":
+            out.append(f"(defn {ns[2]} [] (let [{ns[3]} 1] {req} [{ns[3]} {use}]))")
+        elif where == "nested-fn":
+            out.append(f"(defn {ns[2]} [] (defn inner-f [] {req} [{use}]) (inner-f))")
+        else:
+            out.append(f"(defclass K{rng.randint(0, 9)} [] (defn meth [self] {req} [{use}]))")
+    return "\n".join(out)
+
+
+GENS = [("require", g_require, 3), ("decl", g_decl, 5), ("leak", g_leak, 4), ("let", g_let, 3), ("class", g_class, 2), ("match", g_match, 2),
         ("import", g_import, 1), ("sets", g_sets, 2), ("macro", g_macro, 1)]
 
 
@@ -251,7 +308,7 @@ def cases(seed, tier, shard, nshards):
             seeds = [0, 1, 2, 3]
         else:
             seeds = list(range(12)) + [rng.randrange(12, 2 ** 32)]
-        yield {"sources": srcs, "seeds": seeds}
+        yield {"sources": srcs, "seeds": seeds, "fixtures": FIXTURES}
 
 
 def case_key(case):
@@ -267,9 +324,26 @@ def scratch_dir():
     return d
 
 
+def write_fixtures(fixtures):
+    d = os.path.join(scratch_dir(), "fix")
+    os.makedirs(d, exist_ok=True)
+    for name, text in (fixtures or {}).items():
+        path = os.path.join(d, name + ".hy")
+        try:
+            with open(path, encoding="utf-8") as f:
+                if f.read() == text:
+                    continue
+        except OSError:
+            pass
+        with open(path, "w", encoding="utf-8") as f:
+            f.write(text)
+    return d
+
+
 def child(path, hashseed, mode=None, timeout=100):
     env = dict(os.environ)
     env["PYTHONHASHSEED"] = str(hashseed)
+    env["PYTHONPATH"] = os.path.join(scratch_dir(), "fix") + os.pathsep + env.get("PYTHONPATH", "")
     env.setdefault("PYTHONIOENCODING", "utf-8")
     _STATS["children"] += 1
     cmd = [sys.executable, "-m", "hv.outgen", path] + ([mode] if mode else [])
@@ -314,6 +388,7 @@ def split_nonlocal(text):
 
 def run_case(case):
     srcs, seeds = case["sources"], case["seeds"]
+    write_fixtures(case.get("fixtures"))
     texts = [s["t"] for s in srcs]
     res = compile_batch(texts, seeds, "main")
     if any(v is None or len(v) != len(texts) for v in res.values()):
@@ -414,6 +489,8 @@ def only_nonlocal_order_differs(unparsed):
 
 def finish_worker():
     try:
+        import shutil
+        shutil.rmtree(os.path.join(scratch_dir(), "fix"), ignore_errors=True)
         os.rmdir(scratch_dir())
     except OSError:
         pass
